@@ -27,13 +27,15 @@ na = [{"property_id": pid, "reason": pc.NOT_APPLICABLE.get(pid, "check not built
       for pid in ids if not built(pid)]
 doc = {
     "version": 1,
-    "setup_cmd": " && ".join(f"python3 build.py {f}" for f in sorted({fl for k, p in pc.PROPS.items() if built(k) for fl in ([p["flavour"]] + p.get("extra_flavours", []))})),
+    "setup_cmd": " && ".join(f"python3 build.py {f}" for f in sorted({fl for k, p in pc.PROPS.items() if built(k) for fl in ([p["flavour"]] + p.get("extra_flavours", []))} | {"fuzz"})),
     "hooks": {"guard": pc.GUARD, "enable": f"build.py compiles every translation unit of /repo and of the harness with -D{pc.GUARD}",
               "baseline_off_cmd": "cmake --build /repo/_build -j16 && ctest --test-dir /repo/_build -j8 --timeout 900",
               "source_commits": pc.HOOK_COMMITS, "add_only": True},
     "engines": [
         {"name": "vdrive", "path": "engine/main_rc.cpp", "serves_properties": [p for p in ids if built(p) and pc.PROPS[p].get("engine", "vdrive") == "vdrive"],
          "kind_free_text": "rapidcheck (generation + shrinking over byte strings decoded by a total structure-aware decoder) with ASan/UBSan; replay mode bypasses the library"},
+        {"name": "vfuzz", "path": "engine/main_fuzz.cpp", "serves_properties": [p for p in ids if built(p) and pc.PROPS[p].get("fuzz")],
+         "kind_free_text": "libFuzzer (-fsanitize=fuzzer,address,undefined) over the same total decoder and the same check functions (semantic oracle inside the target); second engine of the thorough tier, artifacts are re-run, minimised and confirmed through the replay driver"},
     ] + pc.EXTRA_ENGINES,
     "checks": checks,
     "notes": "All checks rebuild the library from /repo's working tree (content-hashed cache in /verif/.build). known_findings.json lists recorded/fixed defects. See DESIGN.md.",
